@@ -4,7 +4,7 @@
 (*   [step, ends (cumulative processed count at the end of every run), bounds (processed count after every batch),          *)
 (*    computes (processed count at every computation of results), cols (processed count at every appended column)].         *)
 (* P: points strictly increasing; every point is a batch boundary at which results were freshly computed; points that are not   *)
-(* the last of their run are pairwise at least one step apart and at least one step from the start; after every run the last   *)
+(* final remainders are pairwise at least one step apart and at least one step from the start; after every run the last          *)
 (* point is at the total processed so far.                                                                                 *)
 EXTENDS Integers, Sequences, TLC, Json, IOUtils
 Obs == JsonDeserialize(IOEnv.TRACES)
@@ -18,10 +18,13 @@ RunOf(p) == CHOOSE r \in 1..Len(O.ends) : p <= O.ends[r] /\ (r = 1 \/ p > O.ends
 LastOfRun(i) == i = Len(O.cols) \/ RunOf(O.cols[i + 1]) > RunOf(O.cols[i])
 Increasing == \A i \in 1..(Len(O.cols) - 1) : O.cols[i] < O.cols[i + 1]
 AtFreshBoundaries == \A i \in 1..Len(O.cols) : In(O.cols[i], O.bounds) /\ In(O.cols[i], O.computes) /\ O.cols[i] >= 1 /\ O.cols[i] <= O.ends[Len(O.ends)]
-\* "at least one step apart (except a final remainder)": the last point of a run may be a remainder; all other points are in-loop
-\* points and any two of them are at least one step apart, the first of them at least one step from the start.  (A point that follows
-\* a remainder of the previous run may therefore be closer than one step to that remainder: the statement's exception, read per run.)
-InLoop(i) == ~LastOfRun(i)
+\* "at least one step apart (except a final remainder)": a final remainder is the last point of a run that is closer than one step to the
+\* point before it; every other point is ordinary, and any two ordinary points are at least one step apart, the first of them at least one
+\* step from the start.  (A point that follows a remainder of the previous run may be closer than one step to that remainder: the statement's
+\* exception; a last-of-run point a full step after its predecessor is an ordinary point.)  Analysis.tla checks the same formula
+\* (OrdinarySpacing) on every behaviour of the mechanism model.
+PrevAt(i) == IF i = 1 THEN 0 ELSE O.cols[i - 1]
+InLoop(i) == ~(LastOfRun(i) /\ O.cols[i] - PrevAt(i) < O.step)
 Spacing == /\ \A i, k \in 1..Len(O.cols) : (i < k /\ InLoop(i) /\ InLoop(k)) => O.cols[k] - O.cols[i] >= O.step
            /\ \A i \in 1..Len(O.cols) : InLoop(i) => O.cols[i] >= O.step
 EndsAtTotal == \A r \in 1..Len(O.ends) : In(O.ends[r], O.cols)
